@@ -199,7 +199,13 @@ func readDosHeader(r io.Reader, d io.Writer) (int64, error) {
 	} else if dosheader[0] != 'M' || dosheader[1] != 'Z' {
 		return 0, errors.New("not a PE file")
 	}
-	return int64(binary.LittleEndian.Uint32(dosheader[0x3c:])), nil
+	peStart := int64(binary.LittleEndian.Uint32(dosheader[0x3c:]))
+	if peStart < dosHeaderSize {
+		// the headers are consumed as a stream, so NT headers that overlap the
+		// DOS header cannot be located
+		return 0, errors.New("unsupported PE file: NT headers overlap the DOS header")
+	}
+	return peStart, nil
 }
 
 func readCoffHeader(r io.Reader, d io.Writer) (*pe.FileHeader, error) {
